@@ -165,36 +165,40 @@ Section Chain.
   (* '::'.join(task_name.split('::')[:-1]) : the namespace under which the task is known in this chain *)
   Definition ns_of_name (name : str) : option str := nonempty_ns (Some (ns_text name)).
 
+  (* one declared input: by-class or by-name reference, required or optional with a default *)
+  Definition resolve_one (ns : option str) (names : list str) (acc : list (str * (str + value))) (d : idecl)
+    : res (list (str * (str + value))) :=
+    let name0 : res str :=
+      match i_ref d with
+      | inl s => inl s
+      | inr k => match cls k with inl c => inl (c_slug c) | inr e => inr e end
+      end in
+    match name0 with
+    | inr e => inr e
+    | inl n0 =>
+        let n1 := prefixed ns n0 in
+        if dhas n1 acc then inr EDupInput
+        else
+          match find_task_full_name false n1 names with
+          | inl found =>
+              let n2 := match i_ref d with inl _ => found | inr _ => n1 end in
+              if existsb (str_eqb n2) names then inl (dset n2 (inl n2) acc) else inr EOther
+          | inr _ =>
+              if i_required d then inr EMissingInput else inl (dset n1 (inr (i_default d)) acc)
+          end
+    end.
+
+  Definition declared_inputs (tc : tclass) (current : str) (names : list str) : list idecl :=
+    map (fun m => {| i_ref := m; i_required := true; i_default := VNone |})
+        (expand_tasks (c_meta_inputs tc) names current) ++ c_param_inputs tc.
+
   Definition resolve_inputs (tc : tclass) (current : str) (names : list str)
     : res (list (str * (str + value))) :=
-    let ns := ns_of_name current in
-    let decls :=
-      map (fun m => {| i_ref := m; i_required := true; i_default := VNone |})
-          (expand_tasks (c_meta_inputs tc) names current) ++ c_param_inputs tc in
     fold_left (fun (racc : res (list (str * (str + value)))) d =>
                  match racc with
                  | inr e => inr e
-                 | inl acc =>
-                     let name0 : res str :=
-                       match i_ref d with
-                       | inl s => inl s
-                       | inr k => match cls k with inl c => inl (c_slug c) | inr e => inr e end
-                       end in
-                     match name0 with
-                     | inr e => inr e
-                     | inl n0 =>
-                         let n1 := prefixed ns n0 in
-                         if dhas n1 acc then inr EDupInput
-                         else
-                           match find_task_full_name false n1 names with
-                           | inl found =>
-                               let n2 := match i_ref d with inl _ => found | inr _ => n1 end in
-                               if existsb (str_eqb n2) names then inl (dset n2 (inl n2) acc) else inr EOther
-                           | inr _ =>
-                               if i_required d then inr EMissingInput else inl (dset n1 (inr (i_default d)) acc)
-                           end
-                     end
-                 end) decls (inl []).
+                 | inl acc => resolve_one (ns_of_name current) names acc d
+                 end) (declared_inputs tc current names) (inl []).
 
   Fixpoint process_dependencies1 (todo : list (str * node)) (names : list str) : res (list (str * node)) :=
     match todo with
